@@ -101,12 +101,24 @@ def _params(ptxt):
     return ps
 
 
-def atoms(ptxt, body):
-    """list of (canonical atom, readable atom)"""
+def atoms(ptxt, body, words=None, globals_=None, ignore_calls=None, keywords=None, renumber=False, let=False):
+    """list of (canonical atom, readable atom).
+    The optional arguments (defaults = the module constants, i.e. the behaviour the C08 / C14 tables were written
+    against) let tools/props/sync_steps.py reuse the extractor for other objects: `words` = the fields whose accesses
+    are atoms, `globals_` = identifiers never renamed, `ignore_calls` = calls that are no atoms, `keywords` = extra
+    words that are neither calls nor locals, `renumber` = number the locals in order of first appearance IN THE ATOMS
+    (instead of in the whole function text), so that an added declaration that is no atom does not shift the names,
+    `let` = a read of a word inside a plain assignment / initialisation of a local (`long s = x->state;`,
+    `new_s = s + (1L << x->bits);`) is reported as `LET local=expression` (once per statement) instead of `READ x->w`."""
+    WORDS = globals()["WORDS"] if words is None else tuple(words)
+    GLOBALS = globals()["GLOBALS"] if globals_ is None else set(globals_)
+    IGNORE_CALLS = globals()["IGNORE_CALLS"] if ignore_calls is None else set(ignore_calls)
+    KEYWORDS = globals()["KEYWORDS"] if keywords is None else (globals()["KEYWORDS"] | set(keywords))
     toks = _TOK.findall(collapse(body))
     params = _params(ptxt)
     ren = {p: "P%d" % i for i, p in enumerate(params)}
     nloc = [0]
+    lname = "\x01%d\x02" if renumber else "L%d"
 
     def canon(k):
         t = toks[k]
@@ -122,7 +134,7 @@ def atoms(ptxt, body):
             return t                                  # a function
         if t.endswith("_t") or t.isupper():
             return t                                  # a type / macro remnant
-        ren[t] = "L%d" % nloc[0]
+        ren[t] = lname % nloc[0]
         nloc[0] += 1
         return ren[t]
 
@@ -151,6 +163,7 @@ def atoms(ptxt, body):
         return len(toks)
 
     res = []
+    let_done = {}
     k = 0
     while k < len(toks):
         t = toks[k]
@@ -183,7 +196,7 @@ def atoms(ptxt, body):
             res.append(("CALL " + c, "call " + r))
         elif t in WORDS and k > 0 and toks[k - 1] in ("->", "."):
             b = k - 1                                 # start of the postfix expression
-            while b - 1 >= 0 and (re.match(r"[A-Za-z_]", toks[b - 1]) or toks[b - 1] in ("->", ".")):
+            while b - 1 >= 0 and ((re.match(r"[A-Za-z_]", toks[b - 1]) and toks[b - 1] not in KEYWORDS) or toks[b - 1] in ("->", ".")):
                 b -= 1
             lhs_c, lhs_r = span(b, k + 1)
             pre = toks[b - 1] if b > 0 else ""
@@ -194,8 +207,24 @@ def atoms(ptxt, body):
             elif pre == "&" and (b < 2 or not re.match(r"[A-Za-z_\d)\]]", toks[b - 2])):
                 res.append(("ADDR " + lhs_c, "address of %s passed on" % lhs_r))
             else:
-                res.append(("READ " + lhs_c, "read of " + lhs_r))
+                s0 = b                                # start of the enclosing statement
+                while s0 - 1 >= 0 and toks[s0 - 1] not in (";", "{", "}"):
+                    s0 -= 1
+                eq = [j for j in range(s0, b) if toks[j] == "="]
+                if (let and eq and toks[s0] not in ("if", "while", "for", "return", "switch", "do", "else", "case", "default", "goto",
+                                                    "sizeof", "HOOK", "SWAP", "ASM", "ASSERT")
+                        and not any(toks[j] in ("(", ")", "[", "]", "->", ".", ",", "?") for j in range(s0, eq[0]))
+                        and eq[0] - 1 >= s0 and re.match(r"[A-Za-z_]", toks[eq[0] - 1])):
+                    if let_done.get(s0) is None:
+                        let_done[s0] = True
+                        c, r = span(eq[0] - 1, upto_semicolon(k + 1))
+                        res.append(("LET " + c, "local " + r))
+                else:
+                    res.append(("READ " + lhs_c, "read of " + lhs_r))
         k += 1
+    if renumber:
+        order = {}
+        res = [(re.sub("\x01(\\d+)\x02", lambda m: "L%d" % order.setdefault(m.group(1), len(order)), c), r) for c, r in res]
     return res
 
 
